@@ -675,7 +675,25 @@ func c09SecondLife(c *mon.Ctx, r *mon.Rand) {
 func c09DeriveStorm(c *mon.Ctx, r *mon.Rand) {
 	pr := mon.NewPlainRec(false)
 	shards := uint(r.Range(0, 4))
-	root, _ := vNewRoot(tally.ScopeOptions{Reporter: pr, OmitCardinalityMetrics: true, Tags: map[string]string{"rt": "x"}}, 0, shards)
+	sopts := tally.ScopeOptions{Reporter: pr, OmitCardinalityMetrics: true, Tags: map[string]string{"rt": "x"}}
+	// half of the storms run with a sanitizer, each goroutine asking for its
+	// counter under one of four spellings that are rewritten ("c:2" is "c_2")
+	withSan := r.Bool()
+	if withSan {
+		sopts.SanitizeOptions = &tally.SanitizeOptions{
+			NameCharacters:       tally.ValidCharacters{Ranges: tally.AlphanumericRange, Characters: tally.UnderscoreDashDotCharacters},
+			KeyCharacters:        tally.ValidCharacters{Ranges: tally.AlphanumericRange, Characters: tally.UnderscoreCharacters},
+			ValueCharacters:      tally.ValidCharacters{Ranges: tally.AlphanumericRange, Characters: tally.UnderscoreCharacters},
+			ReplacementCharacter: '_',
+		}
+	}
+	askName := func(g int) (ask, clean string) {
+		if withSan {
+			return fmt.Sprintf("c:%d", g%4), fmt.Sprintf("c_%d", g%4)
+		}
+		return "c", "c"
+	}
+	root, _ := vNewRoot(sopts, 0, shards)
 	G := 4 * runtime.GOMAXPROCS(0)
 	if G > 64 {
 		G = 64
@@ -708,7 +726,8 @@ func c09DeriveStorm(c *mon.Ctx, r *mon.Rand) {
 					sc = root.SubScope("p").Tagged(tags)
 				}
 				runtime.Gosched()
-				sc.Counter("c").Inc(1)
+				ask, _ := askName(g)
+				sc.Counter(ask).Inc(1)
 				var again tally.Scope
 				if i%2 == 0 {
 					again = root.Tagged(tags)
@@ -733,16 +752,23 @@ func c09DeriveStorm(c *mon.Ctx, r *mon.Rand) {
 	bad := 0
 	for g := 0; g < G; g++ {
 		for i := 0; i < M; i++ {
-			name, want := "c", int64(1)
+			_, name := askName(g)
+			want := int64(1)
 			if i%2 == 1 {
-				name = "p.c"
+				name = "p." + name
 			}
 			tags := map[string]string{"rt": "x", "g": fmt.Sprint(g), "i": fmt.Sprint(i), "pad": string(pad[:len(pad)-g])}
 			if i%4 == 3 {
-				if g > 0 {
+				// shared identities: one counter per spelling in use, fed by every
+				// goroutine that uses that spelling
+				if g >= 4 || (!withSan && g > 0) {
 					continue
 				}
-				tags, want = map[string]string{"rt": "x", "shared": fmt.Sprint(i), "pad": string(pad)}, int64(G)
+				want = int64(G)
+				if withSan {
+					want = int64((G - g + 3) / 4)
+				}
+				tags = map[string]string{"rt": "x", "shared": fmt.Sprint(i), "pad": string(pad)}
 			}
 			if a := agg[mon.IdentKey(name, tags)]; a.Sum != want {
 				if bad++; bad <= 3 {
